@@ -1,23 +1,8 @@
 (* C12 - generated unsafe code is never UB; `safe` emits no unsafe at all. *)
-From DW Require Import Proofs_ord Examples.
+From DW Require Import Proofs_ord Proofs_atoms Examples.
 Open Scope nat_scope.
 
-(* the two unsafe constructs of the expansions *)
-Definition rest_unsafe (r : rest) : bool := match r with RUnreachableUnchecked => true | _ => false end.
-Definition match_unsafe (m : option ord_match) : bool := match m with Some m => rest_unsafe (om_rest m) | None => false end.
-Definition strategy_unsafe (s : strategy) : bool := match s with SPtrRead _ => true | _ => false end.
-Definition ord_unsafe (o : ord_body) : bool :=
-  match o with
-  | OSingle _ eq => match_unsafe eq
-  | OMulti _ be s => match_unsafe be || strategy_unsafe s
-  | _ => false
-  end.
-Definition body_unsafe (b : body) : bool :=
-  match b with
-  | BPartialEq (EqDisc _ _ r) => rest_unsafe r
-  | BPartialOrd o | BOrd o => ord_unsafe o
-  | _ => false
-  end.
+(* the two unsafe constructs of the expansions: [rest_unsafe], [strategy_unsafe], lifted to [body_unsafe] in Proofs_atoms.v *)
 
 (* No UB, in every configuration: for every accepted, rustc-valid item (outside the known class F6),
    all values and all field behaviours, eq / partial_cmp / cmp evaluate to a value: the
@@ -151,6 +136,54 @@ Check C12_ptr_read_typed :
     discriminant_parse attrs rvs = Ok disc -> gen_strategy c disc vs w = Some (SPtrRead r) ->
     rust_tag attrs = Some r /\ c_safe c = false.
 Print Assumptions C12_ptr_read_typed.
+
+
+(* The same at the level of the TOKENS of the expansion (Atoms.v: every token of every template,
+   classified; its erasure is what Render.v renders and tie A compares).  Under `safe` no template
+   contributes the keyword `unsafe`, for any item, attribute and trait; in every configuration the
+   keyword can only come from one of the two unsafe constructs.  (User-supplied tokens - e.g. a field
+   of type `unsafe fn()` - are [User] atoms, not [Kw].) *)
+Definition not_unsafe_kw (a : atom) : Prop := a <> Kw "unsafe".
+
+Lemma census_not_unsafe :
+  forall c i w dt, (body_unsafe (gen_body c (in_item i) w dt) = true -> False) -> Forall not_unsafe_kw (timpl c i w dt).
+Proof.
+  intros c i w dt H. apply census_timpl; unfold not_unsafe_kw; try (intros; discriminate).
+  - intros s Hm E. inversion E. subst s. discriminate Hm.
+  - intros E. exfalso. auto.
+Qed.
+
+Theorem C12_safe_no_unsafe_token :
+  forall (c : cfg) (i : input) (w : dw) (dt : derive_trait),
+    c_safe c = true ->
+    ~ In (Kw "unsafe") (timpl c i w dt) /\ erase (timpl c i w dt) = impl_toks (render_impl c i w dt).
+Proof.
+  intros c i w dt Hs. split; [|apply erase_timpl].
+  intros Hin.
+  assert (H0 : body_unsafe (gen_body c (in_item i) w dt) = true -> False) by (rewrite (C12_safe_no_unsafe c (in_item i) w dt Hs); discriminate).
+  pose proof (census_not_unsafe c i w dt H0) as F. rewrite Forall_forall in F. apply (F _ Hin). reflexivity.
+Qed.
+
+Check C12_safe_no_unsafe_token :
+  forall (c : cfg) (i : input) (w : dw) (dt : derive_trait),
+    c_safe c = true ->
+    ~ In (Kw "unsafe") (timpl c i w dt) /\ erase (timpl c i w dt) = impl_toks (render_impl c i w dt).
+Print Assumptions C12_safe_no_unsafe_token.
+
+Theorem C12_unsafe_only_from_constructs :
+  forall (c : cfg) (i : input) (w : dw) (dt : derive_trait),
+    In (Kw "unsafe") (timpl c i w dt) -> body_unsafe (gen_body c (in_item i) w dt) = true.
+Proof.
+  intros c i w dt Hin. destruct (body_unsafe (gen_body c (in_item i) w dt)) eqn:E; [reflexivity|].
+  assert (H0 : body_unsafe (gen_body c (in_item i) w dt) = true -> False) by (rewrite E; discriminate).
+  pose proof (census_not_unsafe c i w dt H0) as F. rewrite Forall_forall in F.
+  exfalso. apply (F _ Hin). reflexivity.
+Qed.
+
+Check C12_unsafe_only_from_constructs :
+  forall (c : cfg) (i : input) (w : dw) (dt : derive_trait),
+    In (Kw "unsafe") (timpl c i w dt) -> body_unsafe (gen_body c (in_item i) w dt) = true.
+Print Assumptions C12_unsafe_only_from_constructs.
 
 (* Non-vacuity: ex_repr (#[repr(u8)], data enum, no Clone) uses the pointer read by default and the const fn under safe. *)
 Example C12_nonvacuous :
